@@ -79,7 +79,10 @@ type SignerFault struct {
 // FSFault edits the materialised tree before an operation.
 type FSFault struct {
 	Path string `json:"path"`
-	Kind string `json:"kind"` // remove | dir | dangling | truncate | garbage
+	Kind string `json:"kind"` // remove | dir | dangling | truncate | garbage | empty | eio | unreadable | replace
+	// KeyRef (kind replace): the harness key whose content the file gets; size
+	// may change, the modification time stays what the scenario's tree says
+	KeyRef string `json:"key_ref,omitempty"`
 }
 
 // Case is one faulty build of C06/C10.
@@ -179,7 +182,7 @@ type Switch struct {
 }
 
 type C12Plan struct {
-	AltConfig string `json:"alt_config,omitempty"` // the independently built settings (config index 1): a variant with other name, description and one more file, so that cross-talk between the two shows in the bytes
+	AltConfig    string   `json:"alt_config,omitempty"` // the independently built settings (config index 1): a variant with other name, description and one more file, so that cross-talk between the two shows in the bytes
 	NConfigs     int      `json:"n_configs"`
 	Clients      []Client `json:"clients"`
 	Mode         string   `json:"mode"` // baton | free
